@@ -51,7 +51,7 @@ impl Scenario for Script {
             out.push(json!({"result": format!("{:?}", r), "stack": format!("{:?}", engine.verif_stack_state())}));
         }
         report::set_extra("results", Value::Array(out));
-        report::set_extra("heap", json!(format!("{:?}", engine.verif_heap_stats())));
+        report::set_extra("heap", json!(format!("{:?} symbol slots (free, shadowed) {:?}", engine.verif_heap_stats(), engine.verif_symbol_slots())));
         report::set_extra(
             "counters",
             json!({
